@@ -134,6 +134,9 @@ func (p *Program) verifyFunc(c *Contract) *FuncResult {
 							t = Term{p.sorts.zeroOf(s), s}
 						}
 						env.Vars[rnames[i]] = t
+						if rnames[i] == "err" && len(r.vals) == 1 {
+							env.Vars["result"] = t
+						}
 					}
 				}
 			}
@@ -369,6 +372,8 @@ func (p *Program) assembleQuery(res *FuncResult, o *Obl, forModel bool) string {
 		sb.WriteString(d)
 		sb.WriteString("\n")
 	}
+	sb.WriteString("\n; ---- string literals\n")
+	sb.WriteString(p.sorts.strLitDecls())
 	want := map[string]bool{}
 	for _, th := range res.Theories {
 		want[th] = true
@@ -390,8 +395,6 @@ func (p *Program) assembleQuery(res *FuncResult, o *Obl, forModel bool) string {
 			}
 		}
 	}
-	sb.WriteString("\n; ---- string literals\n")
-	sb.WriteString(p.sorts.strLitDecls())
 	sb.WriteString("\n; ---- body\n")
 	for _, l := range res.Exec.lines[:o.Prefix] {
 		sb.WriteString(l)
